@@ -127,10 +127,12 @@ func (f *verifC17File) Read(p []byte) (int, error) {
 	}
 	return n, nil
 }
-func (f *verifC17File) Close() error                             { f.closed++; return nil }
-func (f *verifC17File) MakeReadable() error                      { return nil }
-func (f *verifC17File) Readdirnames(int) ([]string, error)       { return nil, errors.New("not a directory") }
-func (f *verifC17File) Stat() (*fs.ExtendedFileInfo, error)      { return nil, errors.New("not implemented") }
+func (f *verifC17File) Close() error                       { f.closed++; return nil }
+func (f *verifC17File) MakeReadable() error                { return nil }
+func (f *verifC17File) Readdirnames(int) ([]string, error) { return nil, errors.New("not a directory") }
+func (f *verifC17File) Stat() (*fs.ExtendedFileInfo, error) {
+	return nil, errors.New("not implemented")
+}
 func (f *verifC17File) ToNode(bool, func(string, ...any)) (*data.Node, error) {
 	return &data.Node{Type: data.NodeTypeFile, Name: "verif"}, nil
 }
